@@ -138,9 +138,20 @@ func buildStack(r *prng.R, c stackCfg) (*simNet, map[uint16]tss.MpcParty) {
 			ids := append([]uint16(nil), c.ids...)
 			nodes[id] = net.silentNode(id, c.t-1, membership, kgf, sf, func(topic []byte, expected int) []uint16 {
 				// the silent synchroniser returns what the application agreed out of band: the first `expected` members
+				// — in an order of the application's choosing (here derived from the topic, so that all nodes agree on it):
+				// ascending, descending or rotated
 				s := append([]uint16(nil), ids...)
 				sort.Slice(s, func(i, j int) bool { return s[i] < s[j] })
-				return s[:expected]
+				s = s[:expected]
+				switch sha(topic)[0] % 3 {
+				case 1:
+					for i, j := 0, len(s)-1; i < j; i, j = i+1, j-1 {
+						s[i], s[j] = s[j], s[i]
+					}
+				case 2:
+					s = append(s[1:], s[0])
+				}
+				return s
 			})
 		}
 	}
